@@ -1,9 +1,14 @@
 """In-process invocation of the real CLI entry point gaftools.__main__.main(argv) with
 outcome classification:  ok | reported | usage | internal_error | nontermination."""
 
+import collections
+import hashlib
 import io
 import logging
+import os
+import pickle
 import sys
+import time
 import traceback
 import warnings
 
@@ -83,8 +88,47 @@ def _where(tb):
     return f"{fn}:{best.name}"
 
 
-def run_cli(argv, capture_stdout=True):
+STALE = collections.Counter()
+_STALE_GAF = "".join(f"stale{i}\t9\t0\t9\t+\t>zz{i}\t9\t0\t9\t9\t9\t60\tNM:i:0\n" for i in range(3))
+
+
+def plant_stale_outputs(argv):
+    """A re-used output path is ordinary use (pipelines overwrite yesterday's files): in a
+    deterministic quarter of the runs the files a command is about to write already exist, with
+    plausible content of an earlier run and a modification time newer than the inputs."""
+    argv = [str(a) for a in argv]
+    key = ",".join(os.path.basename(a) for a in argv)
+    if int(hashlib.sha1(key.encode()).hexdigest()[:4], 16) % 4 != 0:
+        return
+    targets = []
+    for i, a in enumerate(argv[:-1]):
+        if a in ("-o", "--output", "--outgaf", "--outind"):
+            targets.append((argv[i + 1], "index" if (a == "--outind" or argv[0] == "index") else "text"))
+    pos = [a for i, a in enumerate(argv[1:], 1) if not a.startswith("-") and argv[i - 1] not in
+           ("-o", "--output", "--outgaf", "--outind", "-g", "--gfa", "-f", "--format", "-n", "--node", "-r", "--region", "-i", "--index", "-c", "--cores")]
+    if argv[0] == "index" and not any(a in ("-o", "--output") for a in argv) and pos:
+        targets.append((pos[0] + ".gvi", "index"))
+    if argv[0] == "sort" and "--outgaf" in argv and "--outind" not in argv:
+        targets.append((argv[argv.index("--outgaf") + 1] + ".gsi", "index"))
+    for path, kind in targets:
+        if os.path.exists(path) or not os.path.isdir(os.path.dirname(path) or "."):
+            continue
+        if kind == "index":
+            with open(path, "wb") as f:
+                pickle.dump({("zz0", "chrStale", 0, 9): [0, 5], "chrStale": [0, 5], "ref_contig": ["chrStale"]}, f)
+        else:
+            with open(path, "w") as f:
+                f.write(_STALE_GAF)
+        t = time.time() + 2
+        os.utime(path, (t, t))
+        STALE[argv[0]] += 1
+
+
+def run_cli(argv, capture_stdout=True, stale=True):
     import gaftools.__main__ as gm
+
+    if stale:
+        plant_stale_outputs(argv)
 
     root = logging.getLogger()
     old_handlers = list(root.handlers)
